@@ -200,7 +200,8 @@ def check_all(only_missing, ids):
             check(d, [])
         rows = json.loads(buf.getvalue())
         res[name] = {"check": rows[0]["property"], "caught": rows[0]["exit"] == 1, "exit": rows[0]["exit"], "wall_s": rows[0]["wall_s"],
-                     "violations": rows[0]["violations"], "first": rows[0]["first"], "verif_commit": head.strip()}
+                     "violations": rows[0]["violations"], "first": rows[0]["first"], "verif_commit": head.strip(),
+                     "repo_rev": rows[0].get("repo_rev", "HEAD")}
         print(name, "caught" if res[name]["caught"] else "MISSED (exit %s)" % rows[0]["exit"], rows[0]["wall_s"], flush=True)
         # several check-all runs may work on different ids at the same time: merge under a lock
         import fcntl
